@@ -305,6 +305,9 @@ class AlignmentAffine(HomogFamilyAlignment, Affine):
         # now, the Affine
         optimal_h = self._build_alignment_h_matrix(source, target)
         Affine.__init__(self, optimal_h, copy=False, skip_checks=True)
+        # setting the matrix re-derives the target from the state; at
+        # construction the target is the one we were given
+        self._target = target
 
     @staticmethod
     def _build_alignment_h_matrix(source, target):
